@@ -159,6 +159,9 @@ def replay_file(path: str, family: str, trace_module: str) -> int:
                 elif rep.get("shift") not in (None, "zero") and hdr["rule"] != "k_stdp":
                     n = len(H)
                     run.set_delay([[((o + 2 * i + 3 * t + rep["shift"]) % 5) / 2 for i in range(n)] for o in range(n)])
+                elif rep.get("shift") not in (None, "zero"):
+                    n = len(H)      # KernelSTDP: constant whole-step delays per synapse
+                    run.set_delay([[float((o + 2 * i + rep["shift"]) % 3) for i in range(n)] for o in range(n)])
             r = st["r"]
             if isinstance(r, list):
                 signal = torch.tensor([x * st["unit"] for x in r], dtype=torch.float32) if rep.get("persample") \
